@@ -137,7 +137,19 @@ func (vc *VC) Script(o *Obligation, forCVC5 bool, modelVars []string) string {
 		}
 		sb.WriteString(d + "\n")
 	}
-	for _, l := range vc.lines[:o.Prefix] {
+	for i, l := range vc.lines[:o.Prefix] {
+		if len(o.Excl) > 0 && strings.HasPrefix(l, "(assert ") {
+			skip := false
+			for _, r := range o.Excl {
+				if i >= r[0] && i < r[1] {
+					skip = true
+					break
+				}
+			}
+			if skip {
+				continue // internals of a summarised inlined call: replaced by its (proved) summary
+			}
+		}
 		sb.WriteString(l + "\n")
 	}
 	sb.WriteString("(assert " + o.Guard.String() + ")\n")
